@@ -1623,6 +1623,12 @@ func ruleAllocFromFileInt(c *eng.Ctx) {
 	if os.Getenv("VDEBUG") == "fidx" {
 		DebugFileIntIndex(c)
 	}
+	if os.Getenv("VDEBUG") == "bidx" {
+		DebugBinaryIndex(c)
+	}
+	if os.Getenv("VDEBUG") == "ploop" {
+		DebugParsedLoops(c)
+	}
 	const R = "R2.12-ALLOC-FROM-FILE-INT"
 	c.Rule(R, "no slice, map or channel is sized by an integer read from the file (a converted core.Int/core.Real, directly or through the accessors that return one) unless a comparison with a constant or with the length of data that is present bounds it first: a negative or huge /Count, /N, /Length or /Size otherwise aborts the process in make()", 1, 1)
 	fns := fileIntFuncs(c.P)
@@ -3479,6 +3485,131 @@ func ruleParsedCountCapped(c *eng.Ctx) {
 					k++
 					c.Check(capped[fk], R, fmt.Sprintf("%s#size%d(%s)", eng.FuncName(fn), k, name), in.Pos(), "the parsed count is compared with a constant cap in its package",
 						"the size of this allocation is built from "+name+", a number parsed from the document that is never compared with a cap: a span or repeat count of 2^31 in one attribute exhausts memory")
+				}
+			}
+		})
+	}
+}
+
+// DebugBinaryIndex lists index/slice/make operations whose operand derives from a binary read (development aid).
+func DebugBinaryIndex(c *eng.Ctx) {
+	isBin := func(v ssa.Value) bool {
+		for w := range eng.Slice(v, nil) {
+			if call, ok := w.(*ssa.Call); ok {
+				n := eng.CalleeName(call)
+				if strings.Contains(n, "binary.") && (strings.Contains(n, "Uint16") || strings.Contains(n, "Uint32") || strings.Contains(n, "Uint64")) {
+					return true
+				}
+			}
+		}
+		return false
+	}
+	for _, fn := range c.P.ModuleFuncs() {
+		if fn.Blocks == nil {
+			continue
+		}
+		eng.Instrs(fn, false, func(in ssa.Instruction) {
+			var idxs []ssa.Value
+			kind := ""
+			switch x := in.(type) {
+			case *ssa.IndexAddr:
+				idxs, kind = []ssa.Value{x.Index}, "index"
+			case *ssa.Index:
+				idxs, kind = []ssa.Value{x.Index}, "index"
+			case *ssa.Slice:
+				idxs, kind = []ssa.Value{x.Low, x.High}, "slice"
+			case *ssa.MakeSlice:
+				idxs, kind = []ssa.Value{x.Len}, "make"
+			default:
+				return
+			}
+			for _, ix := range idxs {
+				if ix == nil {
+					continue
+				}
+				if _, isC := eng.ConstInt(ix); isC || !isBin(ix) {
+					continue
+				}
+				up := hasUpperGuard(fn, ix, in.Block(), func(ssa.Value) bool { return true })
+				fmt.Fprintf(os.Stderr, "BIDX %s %s %s upper=%v\n", kind, c.P.Pos(in.Pos()), eng.FuncName(fn), up)
+			}
+		})
+	}
+}
+
+// DebugParsedLoops lists loop bounds and strings.Repeat counts that derive from parsed numbers (development aid).
+func DebugParsedLoops(c *eng.Ctx) {
+	type fkey struct {
+		st  string
+		idx int
+	}
+	direct := func(v ssa.Value) bool {
+		for w := range eng.Slice(v, nil) {
+			if ex, ok := w.(*ssa.Extract); ok && ex.Index == 0 {
+				if call, ok := ex.Tuple.(*ssa.Call); ok {
+					switch eng.CalleeName(call) {
+					case "strconv.Atoi", "strconv.ParseInt", "strconv.ParseUint", "strconv.ParseFloat":
+						return true
+					}
+				}
+			}
+		}
+		return false
+	}
+	pf := map[fkey]bool{}
+	for _, fn := range c.P.ModuleFuncs() {
+		eng.Instrs(fn, false, func(in ssa.Instruction) {
+			if st, ok := in.(*ssa.Store); ok {
+				if fa, ok := st.Addr.(*ssa.FieldAddr); ok && direct(st.Val) {
+					pf[fkey{strings.TrimPrefix(eng.TypeName(fa.X.Type()), "*"), fa.Field}] = true
+				}
+			}
+		})
+	}
+	tainted := func(v ssa.Value) bool {
+		if direct(v) {
+			return true
+		}
+		for w := range eng.Slice(v, nil) {
+			switch x := w.(type) {
+			case *ssa.UnOp:
+				if fa, ok := x.X.(*ssa.FieldAddr); ok && x.Op == token.MUL && pf[fkey{strings.TrimPrefix(eng.TypeName(fa.X.Type()), "*"), fa.Field}] {
+					return true
+				}
+			case *ssa.Field:
+				if pf[fkey{strings.TrimPrefix(eng.TypeName(x.X.Type()), "*"), x.Field}] {
+					return true
+				}
+			}
+		}
+		return false
+	}
+	for _, fn := range c.P.ModuleFuncs() {
+		if fn.Blocks == nil {
+			continue
+		}
+		eng.Instrs(fn, false, func(in ssa.Instruction) {
+			switch x := in.(type) {
+			case *ssa.BinOp:
+				if x.Op != token.LSS && x.Op != token.LEQ {
+					return
+				}
+				if _, isInd := eng.Induction(x.X); !isInd {
+					if ph, ok := x.X.(*ssa.Phi); !ok || !isLoopCarried(ph) {
+						return
+					}
+				}
+				if _, isIf := lastIf(x.Block()); !isIf || !eng.InLoop(x.Block()) {
+					return
+				}
+				if tainted(x.Y) {
+					up := hasUpperGuard(fn, x.Y, x.Block(), func(b ssa.Value) bool { _, isC := eng.ConstInt(b); return isC })
+					fmt.Fprintf(os.Stderr, "PLOOP %s %s constUpper=%v\n", c.P.Pos(x.Pos()), eng.FuncName(fn), up)
+				}
+			case *ssa.Call:
+				if eng.CalleeName(x) == "strings.Repeat" && tainted(x.Call.Args[1]) {
+					up := hasUpperGuard(fn, x.Call.Args[1], x.Block(), func(b ssa.Value) bool { _, isC := eng.ConstInt(b); return isC })
+					fmt.Fprintf(os.Stderr, "PREPEAT %s %s constUpper=%v\n", c.P.Pos(x.Pos()), eng.FuncName(fn), up)
 				}
 			}
 		})
